@@ -99,6 +99,7 @@ type PathState struct {
 	learned        map[*Term]interval
 	sigs           map[*Term]*sigProv
 	forbidReported map[string]bool
+	guardOn        bool // lock-discipline monitor switched on (zzsym.Guard)
 	rangeCache     map[*Term]interval
 }
 
@@ -405,7 +406,8 @@ func (in *Interp) call(caller *frame, pos token.Pos, fn value, args []value) val
 
 func (in *Interp) callSSA(caller *frame, pos token.Pos, fn *ssa.Function, args []value, env []value) value {
 	ps := in.ps
-	if ov, ok := in.eng.overrides[fn]; ok {
+	if ov, ok := in.eng.overrides[fn]; ok && (caller == nil || caller.fn != ov) {
+		// a replacement that calls the function it replaces gets the original (wrapper semantics)
 		return in.callSSA(caller, pos, ov, args, nil)
 	}
 	ext, cached := in.intrCache[fn]
@@ -787,6 +789,9 @@ func (in *Interp) visit(fr *frame, instr ssa.Instruction) continuation {
 	case *ssa.Next:
 		fr.set(ins, in.iterNext(fr.get(ins.Iter), ins))
 	case *ssa.FieldAddr:
+		if in.ps.guardOn {
+			in.checkGuard(fr, ins)
+		}
 		fr.set(ins, in.fieldAddr(fr.get(ins.X), ins.Field))
 	case *ssa.Field:
 		fr.set(ins, fr.get(ins.X).(structure)[ins.Field])
